@@ -1187,6 +1187,18 @@ def dfs_roles(repo=None):
                 r['top'] = st.targets[0].id
     if 'new' not in r or 'top' not in r:
         raise OutOfSubset('nx_constant_topological_sort: while body shape')
+    # is the accumulator only ever grown by .append()?  (the ghost position function of the contract follows append; any other mutator - insert, extend,
+    # +=, slice assignment - is outside that protocol: a counter-model is then only a violation with a native failing input, see SortDFS.ensures)
+    other = []
+    for nd in ast.walk(fn):
+        if isinstance(nd, ast.Attribute) and isinstance(nd.value, ast.Name) and nd.value.id == r['order'] and nd.attr != 'append':
+            other.append(nd.attr)
+        if isinstance(nd, (ast.AugAssign, ast.Assign, ast.Delete)):
+            for t in ([nd.target] if isinstance(nd, ast.AugAssign) else nd.targets):
+                base = t.value if isinstance(t, ast.Subscript) else t
+                if isinstance(base, ast.Name) and base.id == r['order'] and not (isinstance(nd, ast.Assign) and isinstance(t, ast.Name) and isinstance(nd.value, ast.List) and not nd.value.elts):
+                    other.append(type(nd).__name__)
+    r['order_other_mutators'] = sorted(set(other))
     return r
 
 
@@ -1309,6 +1321,10 @@ class SortDFS(C02Graph):
         th, g, r = s.th, s.G0, s.r
         if not isinstance(result, SList):
             raise OutOfSubset('the sort returned %s' % type(result).__name__)
+        if r.order_other_mutators:
+            # the witness positions below come from a ghost that follows `.append`: with another mutator of the accumulator the loop-head state is an
+            # over-approximation - refuted posts are violations only with a native failing input (order.insert(0, w) + `return order` is a correct sort)
+            s.vc.taint('the accumulator of the sort is updated by %s: the ghost positions follow append only' % ', '.join(r.order_other_mutators))
         head = s.rt.loopstate[0]['head']
         order = getattr(head, r.order)
         idx = order.ghost
